@@ -172,6 +172,9 @@ def run(tier):
         outs, I = roundtrip.render_value(F, mod, doc)
         got = [symstr.show(r) for ctl, r in outs if ctl == OK]
         C.ob("C08/print-document", "%d paragraphs" % np_, len(outs) == 1 and got == [want], "prints %r, expected %r (one empty line between paragraphs)" % (got, want))
+    # the printed line forms are lexed as the read-back product assumes (incl. value lines starting with ':' or '#'-free text)
+    import c03
+    c03.check_lexing(F, C, "C08/read-back-lexing")
     # D3: the lossy reader reads the printed line forms back (same product as C06, lossy side)
     import tokcursor, deb822_parse, lossy_parse as lp
     wf = deb822_parse.wellformed_dfa()
